@@ -36,6 +36,132 @@ func (c *Ctx) c13Guarded(rule string, top *ssa.Function, what string, targets []
 	}
 }
 
+// c13GuardedVal: c13Guarded for one target whose guard names the value v that the
+// target consumes (mk builds the barriers for a given value).  A target that sits
+// in an unexported helper of top and is reachable from the helper's entry without
+// the guard moves the obligation to every call site of the helper in top's scope,
+// with v — which must then be a parameter of the helper — read as that call's
+// argument.  Same key and wording as c13Guarded.
+func (c *Ctx) c13GuardedVal(rule string, top *ssa.Function, what string, t ssa.Instruction, v ssa.Value, mk func(ssa.Value) []Barrier) {
+	key := fmt.Sprintf("%s|%s|%s", rule, fnKey(top), what)
+	bars := mk(v)
+	if ug, tr := c.c13UnguardedVal(t, v, mk, top, 0); ug {
+		c.violation(rule, key, instrPos(t), fmt.Sprintf("%s: reachable without crossing {%s}; path %s", what, c13BarNames(bars), tr))
+	} else {
+		c.ok(rule, key, instrPos(t), fmt.Sprintf("%s: behind {%s}", what, c13BarNames(bars)))
+	}
+}
+
+func (c *Ctx) c13UnguardedVal(t ssa.Instruction, v ssa.Value, mk func(ssa.Value) []Barrier, top *ssa.Function, depth int) (bool, string) {
+	bars := mk(v)
+	h := TopLevel(t.Parent())
+	if h == TopLevel(top) || depth > 2 {
+		return c.unguarded(t, bars, top)
+	}
+	ug, tr := c.unguarded(t, bars, h)
+	if !ug {
+		return false, "" // guarded inside the helper itself
+	}
+	idx := -1
+	if p, ok := v.(*ssa.Parameter); ok && p.Parent() == h {
+		for i, q := range h.Params {
+			if q == p {
+				idx = i
+			}
+		}
+	}
+	var sites []*ssa.Call
+	for _, g := range scopeFuncs(top) {
+		if TopLevel(g) == h {
+			continue
+		}
+		for _, b := range g.Blocks {
+			for _, in := range b.Instrs {
+				if cl, ok := in.(*ssa.Call); ok && localHelper(g, &cl.Call) == h {
+					sites = append(sites, cl)
+				}
+			}
+		}
+	}
+	if idx < 0 || len(sites) == 0 {
+		return true, tr
+	}
+	for _, s := range sites {
+		if idx >= len(s.Call.Args) {
+			return true, tr
+		}
+		if ug2, t2 := c.c13UnguardedVal(s, s.Call.Args[idx], mk, top, depth+1); ug2 {
+			return true, t2 + "⇒helper:" + tr
+		}
+	}
+	return false, ""
+}
+
+// c13AcquireThroughHelpers: the acquire predicate for Paired seen from the anchored
+// function: a direct acquire, or a call of an unexported same-package helper in
+// which an acquire can reach the helper's return without crossing a release (the
+// obligation to release then falls to the caller).  An acquire inside a closure of
+// a helper is not judged and counts as leaking.
+func c13AcquireThroughHelpers(acquire, release func(ssa.Instruction) bool) func(ssa.Instruction) bool {
+	bars := []Barrier{{Name: "release", Instr: func(in ssa.Instruction) bool {
+		if _, isDefer := in.(*ssa.Defer); isDefer {
+			return false
+		}
+		return release(in)
+	}}, deferBarrier("release", release)}
+	memo := map[*ssa.Function]int{}
+	var pred func(in ssa.Instruction, depth int) bool
+	var leaks func(h *ssa.Function, depth int) bool
+	pred = func(in ssa.Instruction, depth int) bool {
+		if acquire(in) {
+			return true
+		}
+		cl, ok := in.(*ssa.Call)
+		if !ok || depth >= 3 {
+			return false
+		}
+		h := localHelper(in.Parent(), &cl.Call)
+		return h != nil && leaks(h, depth+1)
+	}
+	leaks = func(h *ssa.Function, depth int) bool {
+		switch memo[h] {
+		case 1:
+			return true
+		case 2, 3:
+			return false
+		}
+		memo[h] = 3 // in progress
+		res := false
+		for _, f := range WithAnons(h) {
+			for _, b := range f.Blocks {
+				for _, in := range b.Instrs {
+					if res || !pred(in, depth) {
+						continue
+					}
+					if f != h {
+						res = true
+						continue
+					}
+					r := reach([]Point{pointAfter(in)}, bars, nil)
+					for _, t := range r.order {
+						if isExit(t) {
+							res = true
+							break
+						}
+					}
+				}
+			}
+		}
+		if res {
+			memo[h] = 1
+		} else {
+			memo[h] = 2
+		}
+		return res
+	}
+	return func(in ssa.Instruction) bool { return pred(in, 0) }
+}
+
 // c13Invokes: instructions of fn (+closures) that call method `name`, either
 // statically on recv type typeName or through an interface.
 func c13MethodCalls(fn *ssa.Function, names ...string) []ssa.Instruction {
